@@ -665,6 +665,14 @@ class Ledger(Monitor):
             else:
                 if m.is_split(target) and not m.in_cycle(target):
                     ob["split"] = "%s__t%d" % (e.task, k)
+                else:
+                    busy = self.open.get((target, e.route))
+                    pending = [o for o in self.oblig if not o["used"] and o["target"] == target and o["route"] == e.route
+                               and o["split"] is None]
+                    if (busy is not None and busy.state in ("running", "retrying")) or pending:
+                        # cause tag of a recorded defect (F20): a second execution of a task is due on a route on which
+                        # its previous execution has not finished; the engine keys executions by (task, route)
+                        run.tags.add("rearrival_at_running_task")
                 self.oblig.append(ob)
                 new_obs.append(ob)
         if fail_here:
